@@ -26,6 +26,9 @@
 **   mode=recycle  run-time types whose calloc block is handed back and reused: T1 declares class X, X is looked
 **                 up, T1 is deleted, T2 (same block) declares X with another instance or not at all and X is the
 **                 FIRST lookup on T2; plus lookups alternating between live types that declare X differently
+**   mode=prefix   user classes whose names are prefixes of one another (K1/K10/K100, Pri/Print): run-time types over
+**                 every subset in every declaration order, and statically declared types, every lookup order
+**   mode=typecmp  (C09) cmp/eq/neq/lt/gt/le/ge/hash of type objects, prefix-related type names included
 **   mode=cast     cast(obj, T) for every ordered pair of exported types
 **   mode=matrix only=fail warm=1   (C12) the cells whose class is absent / whose member is empty, cold and after
 **                 every other class of the type has been looked up
@@ -1289,6 +1292,125 @@ static void mode_recycle(void) {
     vf_note("recycle: %" PRIu64 " of %" PRIu64 " cases got a different address and are not counted as executions", rc_other_addr, rc_cases);
 }
 
+
+/* ---- mode=prefix: classes whose names are prefixes of one another ------------------------------------------------ */
+
+static void cold_user_static(var T) {
+  for (int i = 0; i < NCACHE; i++) ((var*)T)[i] = NULL;
+  for (struct Type* t = rec_triples(T); t->name; t++) t->cls = NULL;
+  ((struct Header*)((char*)T - sizeof(struct Header)))->type = NULL;
+}
+
+/* 5 lookups of the five prefix classes in the order lperm, entry points rotating from ep0, then a sweep */
+static void prefix_history(struct tut* t, int lperm, int ep0) {
+  int order[8]; decode_perm(NPFX, lperm, order);
+  HN = 0;
+  for (int i = 0; i < NPFX; i++) push_op(PF0 + order[i], (ep0 + i) % 8, (i + lperm) & 1);
+  for (int c = 0; c < NPFX; c++) { push_op(PF0 + c, EP_TINST, -1); push_op(PF0 + c, EP_IMPL, -1); push_op(PF0 + c, EP_METH, 0); push_op(PF0 + c, EP_TIMPLM, 1); }
+  run_history(t);
+}
+
+static void mode_prefix(void) {
+  vf.phase = "prefix";
+  is_rt = 1; h_restore = 0; rt_count_nontrivial = 1;
+  uint64_t nrt = 0, nst = 0;
+  static int comp[NPFX], vr0[NPFX]; static var insts[NPFX]; static var ob[4 + 8];
+  /* run-time types: every non-empty subset of the five classes in every declaration order, every lookup order */
+  for (int mask = 1; mask < (1 << NPFX); mask++) {
+    int S[NPFX], n = 0;
+    for (int i = 0; i < NPFX; i++) if (mask & (1 << i)) S[n++] = PF0 + i;
+    int nperm = 1; for (int i = 2; i <= n; i++) nperm *= i;
+    for (int dperm = 0; dperm < nperm; dperm++) {
+      int p[8]; decode_perm(n, dperm, p);
+      for (int i = 0; i < n; i++) { comp[i] = S[p[i]]; insts[i] = U[comp[i]].inst[0]; }
+      for (int lperm = 0; lperm < 120; lperm++) {
+        vf_set_cur("prefix rt mask=%d dperm=%d lperm=%d", mask, dperm, lperm);
+        if (vf.replay && strcmp(vf.replay, vf_cur) != 0) continue;
+        vf_watchdog(60);
+        var T = new_type_raw(rt_tname[0], 40, insts, n, 0);
+        struct tut t; rt_tut(&t, T, rt_tname[0], n, comp, vr0, insts, ob);
+        uint64_t c0 = rt_state_changes;
+        prefix_history(&t, lperm, (lperm + dperm + mask) % 8);
+        vf.states += 1 + (rt_state_changes - c0);
+        del_raw(T);
+        vf.executions++; nrt++;
+        if (vf_want_sample()) vf_sample("%s (declares %d of K1,K10,K100,Pri,Print)", vf_cur, n);
+      }
+    }
+  }
+  /* statically declared types over the same classes */
+  for (int si = 0; si < NSU; si++) {
+    var T = *SU[si].objp;
+    int n = SU[si].n;
+    for (int i = 0; i < n; i++) {
+      comp[i] = find_class(SU[si].decl[i]);
+      struct Type* tr = rec_triples(T) + 2 + i;
+      if (comp[i] < 0 || !tr->name || strcmp((char*)tr->name, SU[si].decl[i]) != 0) fatal("static user type %s: declaration table wrong", SU[si].name);
+      insts[i] = tr->inst;                    /* the instance at the position it was declared at */
+    }
+    for (int lperm = 0; lperm < 120; lperm++) for (int ep0 = 0; ep0 < 8; ep0++) {
+      vf_set_cur("prefix static type=%s lperm=%d ep0=%d", SU[si].name, lperm, ep0);
+      if (vf.replay && strcmp(vf.replay, vf_cur) != 0) continue;
+      vf_watchdog(60);
+      cold_user_static(T);
+      struct tut t; rt_tut(&t, T, SU[si].name, n, comp, vr0, insts, ob);
+      t.user_static = 1;
+      uint64_t c0 = rt_state_changes;
+      prefix_history(&t, lperm, ep0);
+      vf.states += 1 + (rt_state_changes - c0);
+      vf.executions++; nst++;
+      if (vf_want_sample()) vf_sample("%s", vf_cur);
+    }
+  }
+  vf_extra("prefix_runtime_type_histories", "%" PRIu64, nrt);
+  vf_extra("prefix_static_type_histories", "%" PRIu64, nst);
+}
+
+/* ---- mode=typecmp (C09): cmp / eq / hash of type objects, names that are prefixes of one another included ------- */
+
+static int sgn(int x) { return (x > 0) - (x < 0); }
+
+static void mode_typecmp(void) {
+  vf.phase = "typecmp";
+  static var TO[160]; static const char* TN[160]; int n = 0;
+  for (int i = 0; i < NTY; i++) { TO[n] = BT[i].T; TN[n++] = TYS[i].name; }
+  for (int i = 0; i < NSU; i++) { TO[n] = *SU[i].objp; TN[n++] = SU[i].name; }
+  for (int k = 0; k < NPFX; k++) { TO[n] = U[PF0 + k].obj; TN[n++] = U[PF0 + k].name; }
+  static const char* rtn[] = { "E", "E1000", "NetErrorT", "P", "Pr", "Typ", "In", "Int64", "Terminal_", "_x" };
+  for (size_t i = 0; i < sizeof rtn / sizeof rtn[0]; i++) { TO[n] = new_type_raw(rtn[i], 8, NULL, 0, 0); TN[n++] = rtn[i]; }
+  vf_extra("type_objects", "%d", n);
+  for (int a = 0; a < n; a++) for (int b = 0; b < n; b++) {
+    size_t la = strlen(TN[a]), lb = strlen(TN[b]);
+    int pfx = a != b && (la < lb ? strncmp(TN[a], TN[b], la) == 0 : strncmp(TN[a], TN[b], lb) == 0);
+    vf_set_cur("typecmp a=%s b=%s", TN[a], TN[b]);
+    if (vf.replay && strcmp(vf.replay, vf_cur) != 0) continue;
+    const char* feat = a == b ? "same-type" : pfx ? "prefix-related-names" : "unrelated-names";
+    char l[160];
+    volatile int c = 0, d = 0; volatile bool e1 = 0, ne = 0, l1 = 0, g1 = 0, le1 = 0, ge1 = 0; volatile uint64_t ha = 0, hb = 0;
+    var ex = VF_CATCH({ c = cmp(TO[a], TO[b]); d = cmp(TO[b], TO[a]); e1 = eq(TO[a], TO[b]); ne = neq(TO[a], TO[b]); l1 = lt(TO[a], TO[b]); g1 = gt(TO[a], TO[b]);
+                        le1 = le(TO[a], TO[b]); ge1 = ge(TO[a], TO[b]); ha = hash(TO[a]); hb = hash(TO[b]); });
+    vf.executions++; vf.evaluations++; vf.transitions++;
+    if (pfx) vf.nontrivial++;
+    if (ex) { snprintf(l, sizeof l, "type/cmp/%s/raised-%s", feat, vf_exc_name(ex)); vf_violation(l, NULL, "comparing two type objects raised %s", vf_exc_name(ex)); continue; }
+    int ref = sgn(strcmp(TN[a], TN[b]));
+    if (sgn(c) != -sgn(d)) { snprintf(l, sizeof l, "type/cmp/%s/not-antisymmetric", feat); vf_violation(l, NULL, "cmp(a,b)=%d but cmp(b,a)=%d", (int)c, (int)d); }
+    else if (sgn(c) != ref) { snprintf(l, sizeof l, "type/cmp/%s/differs-from-name-order", feat); vf_violation(l, NULL, "cmp(a,b)=%d, the names compare %d", (int)c, ref); }
+    if (e1 != (c == 0) || ne != (c != 0) || l1 != (c < 0) || g1 != (c > 0) || le1 != (c <= 0) || ge1 != (c >= 0)) { snprintf(l, sizeof l, "type/cmp/%s/predicates-disagree-with-cmp", feat); vf_violation(l, NULL, "cmp=%d eq=%d neq=%d lt=%d gt=%d le=%d ge=%d", (int)c, e1, ne, l1, g1, le1, ge1); }
+    if (e1 && ha != hb) { snprintf(l, sizeof l, "type/hash/%s/equal-types-hash-differently", feat); vf_violation(l, NULL, "eq(a,b) but the hashes differ"); }
+    if (vf_want_sample()) vf_sample("%s", vf_cur);
+  }
+  /* transitivity over all triples */
+  static signed char M[160][160];
+  for (int a = 0; a < n; a++) for (int b = 0; b < n; b++) M[a][b] = (signed char)sgn(cmp(TO[a], TO[b]));
+  for (int a = 0; a < n; a++) for (int b = 0; b < n; b++) for (int c = 0; c < n; c++) {
+    vf.evaluations++;
+    if (M[a][b] <= 0 && M[b][c] <= 0 && M[a][c] > 0) {
+      vf_set_cur("typecmp a=%s b=%s", TN[a], TN[c]);
+      vf_violation("type/cmp/triple/not-transitive", NULL, "%s <= %s <= %s but %s > %s", TN[a], TN[b], TN[c], TN[a], TN[c]);
+    }
+  }
+}
+
 /* ---- mode=api (C12): public functions on objects whose type lacks the class --------------------------------- */
 
 enum { AF_LEN, AF_PUSH, AF_PUSH_AT, AF_POP, AF_POP_AT, AF_GET, AF_SET, AF_MEM, AF_REM, AF_KEY_TYPE, AF_VAL_TYPE,
@@ -1313,6 +1435,7 @@ static const struct { const char* fn; const char* cls; const char* mem; } FN[NFN
 };
 
 static bool api_lt(var a, var b) { return a < b; }
+static var null_fn(var args);
 
 static void api_call(int f, var T, var o) {
   char buf[8] = { 0 };
@@ -1514,6 +1637,77 @@ static void mode_api(void) {
       }
     }
     if (c) { del_raw(c); c = NULL; }
+  }
+
+  /* ---- objects that cannot be iterated, given to foreach and to the library loops that take an iterable ---------- */
+  {
+    int iter_c = find_class("Iter"), iter_m = find_member(iter_c, "iter_init");
+    /* real objects next to the blank ones: Int, Float, String, a closed File, a Function, an object of a run-time
+       type that declares a class of its own but not Iter */
+    static var ob[4 + 8];
+    var rtT = new_type_raw("RtNoIter", 16, &U[NBC].inst[0], 1, 0);
+    var extra[6]; const char* extran[6] = { "Int-5", "Float-2.5", "String-ab", "File-closed", "Function", "object-of-runtime-type" };
+    extra[0] = new_raw(Int, $I(5)); extra[1] = new_raw(Float, $F(2.5)); extra[2] = new_raw(String, $S("ab"));
+    extra[3] = new_raw(File); extra[4] = new_raw(Function, $(Function, null_fn)); extra[5] = header_init(ob, rtT, AllocStack);
+    static const char* RN[] = { "none", "Array-of-Int", "List-of-Int", "Tuple", "Table-Int-to-Int", "Tree-Int-to-Int" };
+    static const char* ON[] = { "foreach", "assign", "concat", "eq", "cmp" };
+    var ta = new_raw(Int, $I(1)), tb = new_raw(Int, $I(2));
+    uint64_t niter = 0;
+    for (int oi = 0; oi < NTY + 6; oi++) {
+      if (oi < NTY && !in_shard(oi)) continue;
+      var o; const char* on; int ti = -1;
+      if (oi < NTY) {
+        if (!lacks(oi, iter_c, iter_m)) continue;
+        /* a blank object is only a fair argument if the loops cannot reach a method of its own (len, get, cmp, ...
+           of a String or File whose fields were never set up): value types are represented by the real objects below */
+        static const char* touch[] = { "Len", "Get", "Cmp", "Hash", "C_Int", "C_Float", "C_Str", "Assign", "Copy", "Pointer", "Size", "New" };
+        int reach = 0;
+        for (size_t q = 0; q < sizeof touch / sizeof touch[0]; q++) if (declared(&BT[oi], find_class(touch[q]), NULL)) reach = 1;
+        if (reach) continue;
+        o = BT[oi].obj; on = TYS[oi].name; ti = oi;
+      }
+      else { o = extra[oi - NTY]; on = extran[oi - NTY]; }
+      for (int r = 0; r < 6; r++) for (int op = 0; op < 5; op++) {
+        if ((r == 0) != (op == 0)) continue;                                   /* foreach has no receiver */
+        if (op == 2 && r >= 4) continue;                                       /* Table and Tree have no Concat */
+        for (int w = 0; w < (ti >= 0 ? 2 : 1); w++) {
+          vf_set_cur("iterable obj=%s%s recv=%s op=%s state=%s", ti >= 0 ? "blank-" : "", on, RN[r], ON[op], WARMN[w]);
+          if (vf.replay && strcmp(vf.replay, vf_cur) != 0) continue;
+          vf_watchdog(60);
+          if (ti >= 0) memset(o, 0, 8 * sizeof(var));
+          var c = r == 1 ? (var)new_raw(Array, Int, $I(10), $I(11)) : r == 2 ? (var)new_raw(List, Int, $I(10), $I(11)) : r == 3 ? (var)new_raw(Tuple, ta, tb)
+                : r == 4 ? (var)new_raw(Table, Int, Int, $I(0), $I(10), $I(1), $I(11)) : r == 5 ? (var)new_raw(Tree, Int, Int, $I(0), $I(10), $I(1), $I(11)) : NULL;
+          volatile int steps = 0;
+          var e;
+          switch (op) {
+          case 0: e = VF_CATCH({ if (ti >= 0) api_warm(ti, w, iter_c); foreach (x in o) { steps++; if (steps > 4) break; } }); break;
+          case 1: e = VF_CATCH({ if (ti >= 0) api_warm(ti, w, iter_c); assign(c, o); }); break;
+          case 2: e = VF_CATCH({ if (ti >= 0) api_warm(ti, w, iter_c); concat(c, o); }); break;
+          case 3: e = VF_CATCH({ if (ti >= 0) api_warm(ti, w, iter_c); eq(c, o); }); break;
+          default: e = VF_CATCH({ if (ti >= 0) api_warm(ti, w, iter_c); cmp(c, o); }); break;
+          }
+          niter++; vf.executions++; vf.transitions++; vf.evaluations++;
+          if (w) vf.nontrivial++;
+          char l[200];
+          const char* of = ti >= 0 ? "blank-object" : on;
+          if (!e) { snprintf(l, sizeof l, "dispatch-api/iterable/%s/%s/%s/%s/no-exception", ON[op], RN[r], of, WARMN[w]); vf_violation(l, NULL, "%s over an object of type %s, which has no Iter, returned normally (%d loop steps)", ON[op], on, (int)steps); }
+          else if (e != ClassError && e != TypeError && e != ValueError) { snprintf(l, sizeof l, "dispatch-api/iterable/%s/%s/%s/%s/raised-%s", ON[op], RN[r], of, WARMN[w], vf_exc_name(e)); vf_violation(l, NULL, "%s over an object of type %s raised %s", ON[op], on, vf_exc_name(e)); }
+          if (steps) { snprintf(l, sizeof l, "dispatch-api/iterable/%s/%s/%s/%s/loop-body-ran", ON[op], RN[r], of, WARMN[w]); vf_violation(l, NULL, "the loop body ran %d times", (int)steps); }
+          if (c) {
+            volatile int okc = 1;
+            var e2 = VF_CATCH({
+              if (len(c) != 2) okc = 0;
+              if (okc && r == 3 && (get(c, $I(0)) != ta || get(c, $I(1)) != tb)) okc = 0;
+              if (okc && r != 3) for (int i = 0; i < 2; i++) if (c_int(get(c, $I(i))) != 10 + i) okc = 0;
+            });
+            if (e2 || !okc) { snprintf(l, sizeof l, "dispatch-api/iterable/%s/%s/%s/%s/container-changed", ON[op], RN[r], of, WARMN[w]); vf_violation(l, NULL, "after the refused %s from an object of type %s the %s no longer holds its two items", ON[op], on, RN[r]); }
+            var e3 = VF_CATCH(del_raw(c)); (void)e3;
+          }
+          if (vf_want_sample()) vf_sample("%s", vf_cur);
+        }
+      }
+    }
+    vf_extra("iterable_operations", "%" PRIu64, niter);
   }
   vf_extra("api_calls", "%" PRIu64, ncalls);
   vf_extra("container_operations", "%" PRIu64, ncont);
@@ -1970,6 +2164,8 @@ int main(int argc, char** argv) {
   else if (strcmp(mode, "rt") == 0) mode_rt();
   else if (strcmp(mode, "recycle") == 0) mode_recycle();
   else if (strcmp(mode, "api") == 0) mode_api();
+  else if (strcmp(mode, "prefix") == 0) mode_prefix();
+  else if (strcmp(mode, "typecmp") == 0) mode_typecmp();
   else if (strcmp(mode, "null") == 0) mode_null();
   else fatal("unknown mode %s", mode);
   if (vf_param_i("count", 1) == 0) {
